@@ -184,8 +184,11 @@ func coveredFPs(doc []byte, roots []*x509.Certificate, now time.Time) map[string
 		return out
 	}
 	covered := func(el *etree.Element) bool {
-		for p := el.Parent(); p != nil; p = p.Parent() {
-			if (p.Tag == "Response" || p.Tag == "ArtifactResponse") && p.NamespaceURI() == samlgen.NSProtocol && validlySigned(p, roots, now) {
+		for c, p := el, el.Parent(); p != nil; c, p = p, p.Parent() {
+			// c is the child of p on the way down to el; what sits inside p's own ds:Signature child is removed by the
+			// enveloped-signature transform and so is not covered by p's signature
+			viaOwnSignature := c.Tag == "Signature" && c.NamespaceURI() == samlgen.NSDsig
+			if !viaOwnSignature && (p.Tag == "Response" || p.Tag == "ArtifactResponse") && p.NamespaceURI() == samlgen.NSProtocol && validlySigned(p, roots, now) {
 				return true
 			}
 		}
@@ -664,7 +667,9 @@ func c01Ops(p *c01Pool) []c01Op {
 	})
 
 	// re-sign A (after whatever was done to it) with a key the attacker holds
-	for _, kn := range []string{"attacker", "idpenc"} {
+	// ("lookalike1" is an attacker key under a certificate that copies every name-like field of the IdP's: subject, issuer, serial,
+	// validity, subject and authority key identifiers)
+	for _, kn := range []string{"attacker", "idpenc", "lookalike1"} {
 		kn := kn
 		add("resign-A-with-"+kn, func(root *etree.Element, p *c01Pool) bool {
 			a := theA(root)
@@ -1331,6 +1336,8 @@ func runC01(c *core.Ctx) {
 		}
 	}
 
+	c01ArtifactEnvelopes(c, pool, sps)
+
 	c.Group("no-signing-key-published")
 	for _, in := range inits {
 		for _, op1 := range append([]c01Op{{"unchanged", func(*etree.Element, *c01Pool) bool { return true }}}, ops...) {
@@ -1514,4 +1521,277 @@ func c01Rotation(c *core.Ctx, pool *c01Pool) {
 		}
 	}
 	rec(nil)
+}
+
+// c01ArtifactEnvelopes: artifact resolution replies in which the IdP signed the ArtifactResponse envelope (the inner Response unsigned,
+// or signed as well), and every sequence of <= 2 envelope-level edits an attacker on the back channel could make: a forged Response /
+// Assertion placed inside the envelope's Signature (Object, KeyInfo), in Status, in Extensions, before / after / instead of / around the
+// real Response, in the SOAP Header or Body. Same oracle as the document search: whatever is returned was signed by a trusted key and is
+// covered by a valid signature in the presented document.
+func c01ArtifactEnvelopes(c *core.Ctx, pool *c01Pool, sps map[string]*saml.ServiceProvider) {
+	c.Group("artifact-signed-envelope")
+	forged := func() *etree.Element {
+		r := samlgen.DefaultResponse()
+		r.ID = "id-response-forged"
+		return harness.BuildResponse(r, []*samlgen.Assertion{pool.E}, harness.Layout{}, idp1(), spKey())
+	}
+	type eop struct {
+		name string
+		f    func(env *etree.Element) bool
+	}
+	arOf := func(env *etree.Element) *etree.Element {
+		if x := findNS(env, samlgen.NSProtocol, "ArtifactResponse"); len(x) > 0 {
+			return x[0]
+		}
+		return nil
+	}
+	realResp := func(env *etree.Element) *etree.Element {
+		ar := arOf(env)
+		if ar == nil {
+			return nil
+		}
+		for _, r := range childNS(ar, samlgen.NSProtocol, "Response") {
+			if r.SelectAttrValue("ID", "") != "id-response-forged" {
+				return r
+			}
+		}
+		return nil
+	}
+	into := func(find func(env *etree.Element) *etree.Element, first bool) func(env *etree.Element) bool {
+		return func(env *etree.Element) bool {
+			t := find(env)
+			if t == nil {
+				return false
+			}
+			if first {
+				t.InsertChildAt(0, forged())
+			} else {
+				t.AddChild(forged())
+			}
+			return true
+		}
+	}
+	sigOf := func(env *etree.Element) *etree.Element {
+		if ar := arOf(env); ar != nil {
+			return firstSig(ar)
+		}
+		return nil
+	}
+	ops := []eop{
+		{"forged-Response-in-envelope-Signature-Object", func(env *etree.Element) bool {
+			s := sigOf(env)
+			if s == nil {
+				return false
+			}
+			s.CreateElement("ds:Object").AddChild(forged())
+			return true
+		}},
+		{"forged-Response-in-envelope-Signature-Object-first", func(env *etree.Element) bool {
+			s := sigOf(env)
+			if s == nil {
+				return false
+			}
+			o := etree.NewElement("ds:Object")
+			o.AddChild(forged())
+			s.InsertChildAt(0, o)
+			return true
+		}},
+		{"forged-Response-in-envelope-KeyInfo", func(env *etree.Element) bool {
+			s := sigOf(env)
+			if s == nil || s.FindElement("./KeyInfo") == nil {
+				return false
+			}
+			s.FindElement("./KeyInfo").AddChild(forged())
+			return true
+		}},
+		{"forged-Response-in-envelope-SignatureValue-sibling", into(sigOf, false)},
+		{"forged-Response-first-in-ArtifactResponse", into(arOf, true)},
+		{"forged-Response-last-in-ArtifactResponse", into(arOf, false)},
+		{"forged-Response-in-Status", func(env *etree.Element) bool {
+			ar := arOf(env)
+			if ar == nil || ar.FindElement("./Status") == nil {
+				return false
+			}
+			ar.FindElement("./Status").CreateElement("samlp:StatusDetail").AddChild(forged())
+			return true
+		}},
+		{"forged-Response-in-soap-Header", func(env *etree.Element) bool {
+			h := etree.NewElement("soap:Header")
+			h.AddChild(forged())
+			env.InsertChildAt(0, h)
+			return true
+		}},
+		{"forged-Response-in-soap-Body-before-ArtifactResponse", func(env *etree.Element) bool {
+			ar := arOf(env)
+			if ar == nil {
+				return false
+			}
+			ar.Parent().InsertChildAt(ar.Index(), forged())
+			return true
+		}},
+		{"real-Response-moved-into-Signature-Object-forged-in-its-place", func(env *etree.Element) bool {
+			s, r := sigOf(env), realResp(env)
+			if s == nil || r == nil {
+				return false
+			}
+			par := r.Parent()
+			idx := r.Index()
+			par.RemoveChild(r)
+			s.CreateElement("ds:Object").AddChild(r)
+			par.InsertChildAt(idx, forged())
+			return true
+		}},
+		{"real-Response-replaced-by-forged", func(env *etree.Element) bool {
+			r := realResp(env)
+			if r == nil {
+				return false
+			}
+			par := r.Parent()
+			idx := r.Index()
+			par.RemoveChild(r)
+			par.InsertChildAt(idx, forged())
+			return true
+		}},
+		{"evil-Assertion-added-to-real-Response", func(env *etree.Element) bool {
+			r := realResp(env)
+			if r == nil {
+				return false
+			}
+			r.AddChild(pool.unsignedE.Copy())
+			return true
+		}},
+		{"evil-Assertion-in-envelope-Signature-Object", func(env *etree.Element) bool {
+			s := sigOf(env)
+			if s == nil {
+				return false
+			}
+			s.CreateElement("ds:Object").AddChild(pool.unsignedE.Copy())
+			return true
+		}},
+		{"envelope-signature-removed", func(env *etree.Element) bool {
+			ar, s := arOf(env), sigOf(env)
+			if s == nil {
+				return false
+			}
+			ar.RemoveChild(s)
+			return true
+		}},
+		{"envelope-resigned-by-attacker", func(env *etree.Element) bool {
+			ar := arOf(env)
+			if ar == nil {
+				return false
+			}
+			for _, s := range childNS(ar, samlgen.NSDsig, "Signature") {
+				ar.RemoveChild(s)
+			}
+			samlgen.Sign(ar, samlgen.Key("attacker"), "")
+			return true
+		}},
+		{"envelope-resigned-by-lookalike", func(env *etree.Element) bool {
+			ar := arOf(env)
+			if ar == nil {
+				return false
+			}
+			for _, s := range childNS(ar, samlgen.NSDsig, "Signature") {
+				ar.RemoveChild(s)
+			}
+			samlgen.Sign(ar, samlgen.Key("lookalike1"), "")
+			return true
+		}},
+		{"second-ArtifactResponse-unsigned-with-forged-first-in-Body", func(env *etree.Element) bool {
+			ar := arOf(env)
+			if ar == nil {
+				return false
+			}
+			ar2 := harness.ArtifactResponseEl("id-artresp-2", "id-resolve-1", samlgen.TS(samlgen.T0), samlgen.S(samlgen.IDPEntity), samlgen.StatusOK, forged())
+			ar.Parent().InsertChildAt(ar.Index(), ar2)
+			return true
+		}},
+	}
+	type einit struct {
+		name string
+		mk   func() *etree.Element
+	}
+	mkEnv := func(innerLay harness.Layout, outer bool) *etree.Element {
+		inner := harness.BuildResponse(samlgen.DefaultResponse(), []*samlgen.Assertion{pool.A}, innerLay, idp1(), spKey())
+		ar := harness.ArtifactResponseEl("id-artresp-1", "id-resolve-1", samlgen.TS(samlgen.T0), samlgen.S(samlgen.IDPEntity), samlgen.StatusOK, inner)
+		env := harness.SoapEnvelope(ar)
+		if outer {
+			samlgen.Sign(ar, idp1(), "")
+		}
+		holder := etree.NewDocument()
+		holder.SetRoot(env)
+		return env
+	}
+	inits := []einit{
+		{"envelope-signed/inner-unsigned", func() *etree.Element { return mkEnv(harness.Layout{}, true) }},
+		{"envelope-signed/inner-Response-signed", func() *etree.Element { return mkEnv(harness.Layout{SignResponse: true}, true) }},
+		{"envelope-signed/inner-Assertion-signed", func() *etree.Element { return mkEnv(harness.Layout{SignAssertion: true}, true) }},
+		{"envelope-unsigned/inner-Response-signed", func() *etree.Element { return mkEnv(harness.Layout{SignResponse: true}, false) }},
+	}
+	none := eop{"none", func(*etree.Element) bool { return true }}
+	for _, in := range inits {
+		for _, o1 := range append([]eop{none}, ops...) {
+			for _, o2 := range append([]eop{none}, ops...) {
+				if o1.name == "none" && o2.name != "none" {
+					continue
+				}
+				in, o1, o2 := in, o1, o2
+				key := "artenv/" + in.name + "/" + o1.name + " ; " + o2.name
+				c.Case(key, func(t *core.T) {
+					env := in.mk()
+					ok1, ok2 := false, false
+					func() {
+						defer func() { recover() }()
+						ok1 = o1.f(env)
+						if ok1 {
+							ok2 = o2.f(env)
+						}
+					}()
+					if !ok1 || !ok2 {
+						t.Outcome("op-not-applicable")
+						return
+					}
+					if o1.name != "none" {
+						t.NonTrivial()
+					}
+					doc := samlgen.Doc(env)
+					for _, tr := range c01Trusts[:3] {
+						sp := sps[tr.name]
+						var a *saml.Assertion
+						var err error
+						_, pan := guard(func() error {
+							a, err = sp.ParseXMLArtifactResponse(doc, []string{samlgen.ReqID}, "id-resolve-1", acsURL)
+							return nil
+						})
+						t.Impl(1)
+						if pan != "" {
+							t.Outcome("panic")
+							continue
+						}
+						fk := "C01/" + tr.name + "/artifact-envelope"
+						if o1.name == "none" && err != nil {
+							t.Fail(fk+"/genuine-rejected", "%s: the unmodified reply is rejected under %s: %s", in.name, tr.name, privErr(err))
+						}
+						if a == nil {
+							t.Outcome("reject")
+							continue
+						}
+						t.Outcome("accept")
+						fp := assertionFP(a)
+						if _, genuine := pool.genuineFP[fp]; !genuine {
+							t.Fail(fk+"/returned-content-never-signed-by-trusted-key", "the SP returned an assertion whose content no trusted key signed (NameID %q); path: %s", nameIDOf(a), key)
+							t.Input("presented_xml", string(doc))
+							continue
+						}
+						if !coveredFPs(doc, rootsOf(tr), samlgen.T0)[fp] {
+							t.Fail(fk+"/returned-content-not-under-a-valid-signature-in-this-document", "returned content is not covered by a valid trusted signature in the presented reply; path: %s", key)
+							t.Input("presented_xml", string(doc))
+						}
+					}
+					t.Compared()
+				})
+			}
+		}
+	}
 }
